@@ -63,22 +63,16 @@ Theorem C05_prim_coherent : forall tg, coherent (prim_step tg).
 Proof. exact prim_coherent. Qed.
 Print Assumptions C05_prim_coherent.
 
-(* machine modelled on ber_check_tags with a restart context (ber_decoder.c):
-   coherent for a single tag, refuted for a chain of two (the locals limit_len and
-   expect_00_terminators are not saved): finding C05-ber-tagchain-restart *)
-Theorem C05_chain_coherent_partial : forall tag, coherent (chain_step [tag]).
-Proof. exact chain_coherent_partial. Qed.
-Print Assumptions C05_chain_coherent_partial.
+(* machine modelled on ber_check_tags with a restart context (ber_decoder.c), as the
+   constructed decoders call it: coherent for every chain of tags (any number of
+   EXPLICIT tags, definite and indefinite lengths): the locals limit_len and
+   expect_00_terminators travel in the context.  Finding C05-ber-tagchain-restart
+   (fixed) was the refutation of this statement for chains of two tags. *)
+Theorem C05_chain_coherent : forall tags, coherent (chain_step tags).
+Proof. exact chain_coherent. Qed.
+Print Assumptions C05_chain_coherent.
 
-Theorem C05_chain_coherent_refuted : exists tags, ~ coherent (chain_step tags).
-Proof. exact chain_coherent_refuted. Qed.
-Print Assumptions C05_chain_coherent_refuted.
-
-Theorem C05_chain_resumable_refuted_valid_ber :
-  chain_step u_tags chain_ctx0 [165; 128] = (MORE, 2%nat, {| cstep := 1; cleft := None |}) /\
-  chain_step u_tags chain_ctx0 ([165; 128] ++ [48; 128; 167; 3; 2; 1; 5; 0; 0; 0; 0])
-    = (OK, 4%nat, {| cstep := 2; cleft := Some (-2) |}) /\
-  shift 2 (chain_step u_tags {| cstep := 1; cleft := None |} (skipn 2 [165; 128] ++ [48; 128; 167; 3; 2; 1; 5; 0; 0; 0; 0]))
-    = (OK, 4%nat, {| cstep := 2; cleft := Some (-1) |}).
-Proof. exact chain_resumable_refuted_valid_ber. Qed.
-Print Assumptions C05_chain_resumable_refuted_valid_ber.
+Theorem C05_chain_chunk_independent : forall tags input chunks,
+  chunking_of input chunks -> feed0 (chain_step tags) chain_ctx0 chunks = chain_step tags chain_ctx0 input.
+Proof. exact chain_chunk_independent. Qed.
+Print Assumptions C05_chain_chunk_independent.
